@@ -7,6 +7,7 @@ use aquatic_common::CanonicalSocketAddr;
 use aquatic_udp_protocol::*;
 use vcore::model::PeerKey;
 
+pub mod live;
 pub mod wire;
 
 /// Independent canonicalisation (std's `to_ipv4_mapped`), not the code's pattern match
